@@ -158,6 +158,10 @@ func runQuotaGuard(c *core.Ctx) {
 		}
 		if len(mapUpdatesOn(fn, setSuffix)) > 0 {
 			req = fn
+			// (the two one-use handlers folded into the clauses of one dispatching method)
+			if len(mapDeletesOn(fn, setSuffix)) > 0 && cls == nil {
+				cls = fn
+			}
 		} else if len(mapDeletesOn(fn, setSuffix)) > 0 {
 			cls = fn
 		}
@@ -176,6 +180,57 @@ func runQuotaGuard(c *core.Ctx) {
 		}
 	}
 	id := msg + ".SubscriptionID"
+	// the REQ handler as the REQ clause of a dispatching method (`switch msg := msg.(type) { case
+	// *ClientReqMsg: … }`): the message is the parameter behind that assertion, the clause's entry
+	// block delimits what belongs to the handler
+	var reqClause *ssa.BasicBlock
+	if msg == "" {
+		if kp := an.PathOf(mu.Key); strings.HasSuffix(kp, ".SubscriptionID") {
+			base := strings.TrimSuffix(kp, ".SubscriptionID")
+			if assertedType(req, mu.Block(), base) == "ClientReqMsg" && paramIdx(req, base) >= 0 {
+				for _, b := range req.Blocks {
+					iff, isIf := an.LastInstr(b).(*ssa.If)
+					if !isIf {
+						continue
+					}
+					ex, isEx := iff.Cond.(*ssa.Extract)
+					if !isEx || ex.Index != 1 {
+						continue
+					}
+					if ta, isTA := ex.Tuple.(*ssa.TypeAssert); isTA && typeNameOf(ta.AssertedType) == "ClientReqMsg" && an.PathOf(ta.X) == base && (b.Succs[0] == mu.Block() || b.Succs[0].Dominates(mu.Block())) {
+						reqClause = b.Succs[0]
+					}
+				}
+				if reqClause != nil {
+					msg, id = base, kp
+				}
+			}
+		}
+	}
+	inClause := func(b *ssa.BasicBlock) bool {
+		return reqClause == nil || b == reqClause || reqClause.Dominates(b)
+	}
+	clausePaths := func(ps []an.Path) []an.Path {
+		if reqClause == nil {
+			return ps
+		}
+		var out []an.Path
+		for _, p := range ps {
+			if p.Contains(reqClause) {
+				out = append(out, p)
+			}
+		}
+		return out
+	}
+	reqDeletes := func() []*ssa.Call {
+		var out []*ssa.Call
+		for _, d := range mapDeletesOn(req, setSuffix) {
+			if inClause(d.Block()) {
+				out = append(out, d)
+			}
+		}
+		return out
+	}
 	// the quota decision as a verdict helper of the per-connection value
 	// (`if v.tryOpen(msg.SubscriptionID, m.maxSubs) { forward } else { reject }`): the set logic is read
 	// in the helper — "false" is the rejecting way out, "true" the forwarding one — and the handler must
@@ -327,6 +382,13 @@ func runQuotaGuard(c *core.Ctx) {
 				if r.kind == "reject" && invalidMsgGuarded(req, ret.Block(), msg) {
 					continue
 				}
+				// (a dispatching method: only what the REQ clause reaches belongs to the REQ handler)
+				if reqClause != nil && !(inClause(ret.Block()) || an.Reachable(reqClause, ret.Block(), nil, nil)) {
+					continue
+				}
+				if reqClause != nil && r.kind == "reject" && !inClause(ret.Block()) {
+					continue
+				}
 				switch r.kind {
 				case "reject":
 					rej = ret
@@ -397,7 +459,7 @@ func runQuotaGuard(c *core.Ctx) {
 			if !okp {
 				insertOnlyWhenForwarded = false
 			}
-			for _, fp := range fps {
+			for _, fp := range clausePaths(fps) {
 				if !an.Feasible(fp) || fp.Contains(mu.Block()) {
 					continue
 				}
@@ -436,7 +498,7 @@ func runQuotaGuard(c *core.Ctx) {
 				}
 			}
 		}
-		if notMember && insertOnlyWhenForwarded && len(mapDeletesOn(req, setSuffix)) == 0 {
+		if notMember && insertOnlyWhenForwarded && len(reqDeletes()) == 0 {
 			c.Check(sym != "" && strings.HasPrefix(sym, "recv.") && rs.Equal(an.Range(0, an.PosInf)), nil, fname(c, req), "reject-set", P.Pos(rej.Pos()),
 				"before inserting the id: a new id is rejected iff len(set) ∈ "+rs.Format("N")+" with N = "+sym+"; an id that is already open passes",
 				"a new id is rejected when len(set) ∈ "+rs.Format("N")+" (N = "+sym+"), want [N,+∞) measured before inserting it: more (or fewer) than N subscriptions can be open")
@@ -449,7 +511,7 @@ func runQuotaGuard(c *core.Ctx) {
 			"after inserting the id: rejected iff len(set) ∈ "+rs.Format("N")+" with N = "+sym, "rejected when len(set) ∈ "+rs.Format("N")+" (N = "+sym+"), want (N,+∞) measured after inserting the id: more (or fewer) than N subscriptions can be open")
 		// the reject edge removes the same id
 		okDel := false
-		for _, d := range mapDeletesOn(req, setSuffix) {
+		for _, d := range reqDeletes() {
 			if an.PathOf(d.Call.Args[1]) == id && (d.Block() == rej.Block() || d.Block().Dominates(rej.Block())) && !(d.Block() == fwd.Block() || d.Block().Dominates(fwd.Block())) {
 				okDel = true
 			}
